@@ -129,6 +129,10 @@ func c11Us(level int) []*big.Int {
 		add(v.V)
 	}
 
+	for _, v := range alpha.Fixed(256, "sswu") {
+		add(v)
+	}
+
 	for _, v := range ref.Vectors {
 		for _, u := range v.U {
 			x, _ := new(big.Int).SetString(u, 16)
